@@ -42,6 +42,11 @@ _HVC_OLD = '''        addition = {"a": tuple(idx for idx in idx_map["a"]
         variant["a"].difference_update(addition["a"])
         variant["b"].difference_update(addition["b"])
 '''
+_HVC_ADD = '''        addition = {"a": tuple(idx for idx in idx_map["a"]
+                               if idx not in variant["a"]),
+                    "b": tuple(idx for idx in idx_map["b"]
+                               if idx not in variant["b"])}
+'''
 _ERI_IFS = '''            if p.spin == r.spin and q.spin == s.spin:
                 res += SymmetricTensor(tensor_names.coulomb, (p, r), (q, s), 1)
                 expanded_coulomb = True
@@ -218,6 +223,19 @@ WITNESSES = [
     dict(id="c15-restricted-subs-loop", prop="C15", file=S, expect="R15e",
          old="        restricted_expr += term.sympy.xreplace(sub)",
          new="        renamed = term.sympy\n        for old, new in sub.items():\n            renamed = renamed.subs(old, new)\n        restricted_expr += renamed"),
+    # lazy bookkeeping: generator expressions that are consumed only after `variant` was updated see nothing to revert
+    dict(id="c15-search-lazy-bookkeeping", prop="C15", file=S, expect=["R15g", "R15h"], old=_HVC_ADD,
+         new='''        addition = {"a": (idx for idx in idx_map["a"]
+                          if idx not in variant["a"]),
+                    "b": (idx for idx in idx_map["b"]
+                          if idx not in variant["b"])}
+'''),
+    dict(id="c15-search-lazy-filter", prop="C15", file=S, expect=["R15g", "R15h"], old=_HVC_ADD,
+         new='''        addition = {"a": filter(lambda idx: idx not in variant["a"],
+                                idx_map["a"]),
+                    "b": filter(lambda idx: idx not in variant["b"],
+                                idx_map["b"])}
+'''),
     # ------------------------------------------------------------------ behaviour preserving
     dict(id="c15-ok-copy-comprehension", prop="C15", file=S, expect=None, old=_COPY,
          new="                        complete_variant = {\"a\": set(idx_map[\"a\"]), \"b\": set(idx_map[\"b\"])}"),
@@ -379,4 +397,19 @@ def allowed_spin_blocks(expr: Expr, target_idx: str) -> tuple[str]:''')]),
     dict(id="c15-ok-integrate-subs-pairs", prop="C15", file=S, expect=None,
          old="                contribution += term.sympy.subs(order_substitutions(sub))",
          new="                contribution += term.sympy.subs(sorted(sub.items(), key=lambda p: p[0].name))"),
+    # lazy generators over a snapshot taken before the update / materialised before the update: still correct
+    dict(id="c15-ok-search-lazy-over-snapshot", prop="C15", file=S, expect=None, old=_HVC_ADD,
+         new='''        before = {sp: frozenset(variant[sp]) for sp in "ab"}
+        addition = {"a": (idx for idx in idx_map["a"]
+                          if idx not in before["a"]),
+                    "b": (idx for idx in idx_map["b"]
+                          if idx not in before["b"])}
+'''),
+    dict(id="c15-ok-search-generators-consumed-first", prop="C15", file=S, expect=None, old=_HVC_ADD,
+         new='''        lazy = {"a": (idx for idx in idx_map["a"]
+                      if idx not in variant["a"]),
+                "b": (idx for idx in idx_map["b"]
+                      if idx not in variant["b"])}
+        addition = {sp: list(gen) for sp, gen in lazy.items()}
+'''),
 ]
